@@ -4,4 +4,8 @@ EXTENDS TickExpr
 MCLeaves2 == { <<"ref", "x">>, <<"int", "1">> }
 MCLeaves3 == { <<"ref", "x">>, <<"int", "1">>, <<"str", "s">> }
 MCLeaves1 == { <<"ref", "x">> }
+(* token VALUES with line ends / control characters inside, and a string that looks like a   *)
+(* duration: a literal token is its own leaf node, Format writes the value byte for byte and  *)
+(* the JSON form keeps kind and value (the law C13 states for "same literals")                *)
+MCLeavesCtl == { <<"str", "a\r\nb">>, <<"str", "a\tb">>, <<"ref", "x\ry">>, <<"str", "1m">>, <<"dur", "1m">> }
 =============================================================================
